@@ -150,7 +150,7 @@ def rule_once(program, ctx):
         "notify_all_connected: `create_task(<sub>.notify(event))` is a statement directly in the body of `for sub in client.values()` nested in "
         "`for client in self.clients.values()`, with `event` the function's parameter: no condition, break or continue around it; it is the only "
         "place that schedules BaseSubscription.notify",
-        floor=2,
+        floor=1,
     )
     fn = program.func("nostr_relay.storage.base:BaseStorage.notify_all_connected")
     evp = fn.args.args[1].arg
@@ -221,7 +221,7 @@ def rule_coverage(program, ctx):
         "BaseSubscription.check_event: each of ids/authors/kinds/since/until/tags has a presence test whose body adds a verdict to the per-filter "
         "set; since/until (declared ge=0, so 0 is legal) are tested with `is not None`, not truthiness; the verdict is `matched and all(matched)` "
         "per filter; notify puts exactly (self.sub_id, event) iff check_event(event, self.filters) is truthy",
-        floor=8,
+        floor=4,
     )
     fn = program.func("nostr_relay.storage.base:BaseSubscription.check_event")
     loop = next((l for l in walk_no_nested(fn) if isinstance(l, ast.For)), None)
